@@ -51,6 +51,18 @@ void vh_fill_value(uint8_t *dst, size_t len, uint64_t vid);
 int vh_check_value(const uint8_t *p, size_t len, uint64_t vid); /* 1 = matches */
 uint64_t vh_value_vid(const uint8_t *p, size_t len);   /* 0 if too short */
 
+/* ---- stuck-call watcher (logical, not wall-clock): a thread that samples two progress measures.
+ *  `fg` = completed steps of the driving thread, `io` = intercepted calls of all observed threads.
+ *  (a) the driver has not completed a step while more than `io_limit` intercepted calls were made
+ *      -> violation <prop>/call-stuck-while-background-keeps-working  (livelock / endless retry)
+ *  (b) neither measure moved and every other thread of the process was blocked (state S in
+ *      /proc/self/task) at 200 consecutive samples 50 ms apart
+ *      -> violation <prop>/call-stuck-all-threads-blocked            (deadlock: no runnable thread)
+ *  After a report the watcher calls vh_finish() and _exit(0): the process cannot continue. */
+extern void (*vh_watch_thread_init)(void);   /* optional: run first in the watcher thread (e.g. iom_pause(1)) */
+void vh_watch_start(const char *prop, uint64_t (*fg)(void), uint64_t (*io)(void), uint64_t io_limit,
+                    const char *(*what)(void));
+
 /* misc */
 double vh_now(void);
 int vh_mkdir_p(const char *path);
